@@ -163,7 +163,7 @@ type vkind struct {
 	sc   []field
 	// parse: oidc.ParseToken with the destination the verifier uses; call: the verifier itself
 	parse func(tok string) error
-	call  func(f *opfix.Fixture, tok string)
+	call  func(f *opfix.Fixture, tok string) error
 }
 
 func vkinds() []vkind {
@@ -174,31 +174,35 @@ func vkinds() []vkind {
 	return []vkind{
 		{"VRpIDToken", scIDToken,
 			func(tok string) error { var c *oidc.IDTokenClaims; _, err := oidc.ParseToken(tok, &c); return err },
-			func(f *opfix.Fixture, tok string) { rp.VerifyIDToken[*oidc.IDTokenClaims](ctx, tok, rpv) }},
+			func(f *opfix.Fixture, tok string) error { _, err := rp.VerifyIDToken[*oidc.IDTokenClaims](ctx, tok, rpv); return err }},
 		{"VOpAccessToken", scAccessToken,
 			func(tok string) error { var c *oidc.AccessTokenClaims; _, err := oidc.ParseToken(tok, &c); return err },
-			func(f *opfix.Fixture, tok string) {
-				op.VerifyAccessToken[*oidc.AccessTokenClaims](ctx, tok, f.Provider.AccessTokenVerifier(ctx))
+			func(f *opfix.Fixture, tok string) error {
+				_, err := op.VerifyAccessToken[*oidc.AccessTokenClaims](ctx, tok, f.Provider.AccessTokenVerifier(ctx))
+				return err
 			}},
 		{"VOpIDTokenHint", scIDToken,
 			func(tok string) error { var c *oidc.IDTokenClaims; _, err := oidc.ParseToken(tok, &c); return err },
-			func(f *opfix.Fixture, tok string) {
-				op.VerifyIDTokenHint[*oidc.IDTokenClaims](ctx, tok, f.Provider.IDTokenHintVerifier(ctx))
+			func(f *opfix.Fixture, tok string) error {
+				_, err := op.VerifyIDTokenHint[*oidc.IDTokenClaims](ctx, tok, f.Provider.IDTokenHintVerifier(ctx))
+				return err
 			}},
 		{"VOpIDTokenHintTC", scTokenClaims,
 			func(tok string) error { var c *oidc.TokenClaims; _, err := oidc.ParseToken(tok, &c); return err },
-			func(f *opfix.Fixture, tok string) {
-				op.VerifyIDTokenHint[*oidc.TokenClaims](ctx, tok, f.Provider.IDTokenHintVerifier(ctx))
+			func(f *opfix.Fixture, tok string) error {
+				_, err := op.VerifyIDTokenHint[*oidc.TokenClaims](ctx, tok, f.Provider.IDTokenHintVerifier(ctx))
+				return err
 			}},
 		{"VJWTAssertion", scJWTRequest,
 			func(tok string) error { _, err := oidc.ParseToken(tok, new(oidc.JWTTokenRequest)); return err },
-			func(f *opfix.Fixture, tok string) {
-				op.VerifyJWTAssertion(ctx, tok, f.Provider.JWTProfileVerifier(ctx))
+			func(f *opfix.Fixture, tok string) error {
+				_, err := op.VerifyJWTAssertion(ctx, tok, f.Provider.JWTProfileVerifier(ctx))
+				return err
 			}},
 		{"VRequestObject", scRequestObject,
 			func(tok string) error { _, err := oidc.ParseToken(tok, new(oidc.RequestObject)); return err },
-			func(f *opfix.Fixture, tok string) {
-				op.ParseRequestObject(ctx, &oidc.AuthRequest{RequestParam: tok, ClientID: "pkjwt", ResponseType: oidc.ResponseTypeCode},
+			func(f *opfix.Fixture, tok string) error {
+				return op.ParseRequestObject(ctx, &oidc.AuthRequest{RequestParam: tok, ClientID: "pkjwt", ResponseType: oidc.ResponseTypeCode},
 					f.Provider.Storage(), opfix.Issuer)
 			}},
 	}
@@ -255,8 +259,10 @@ func verifyCases(w *emit.Writer, g *gen, f *opfix.Fixture, n int) {
 			doc = jnull()
 			payload = doc.Bytes(r, true)
 		case c == 1:
-			doc = drv.Pick(r, []*J{jarr(), jarr(jobj()), jstr("x"), jint(1), jbool(false), jhuge("1e999"), jfrac("1.5", 1)})
+			doc = drv.Pick(r, []*J{jarr(), jarr(jobj()), jstr("x"), jint(1), jbool(false), jhuge("1e999"), jfrac("1.5", 1), jnull(), jnull()})
 			payload = doc.Bytes(r, true)
+			// insignificant white space before / after the value, explicitly
+			payload = []byte(drv.Pick(r, []string{"", " ", "\t", "\n", "\r\n", "  \t "}) + string(payload) + drv.Pick(r, []string{"", " ", "\n", "\r\n\t ", "   "}))
 		case c == 2 || c == 3:
 			valid = false
 			payload = []byte(drv.Pick(r, truncated))
@@ -265,7 +271,11 @@ func verifyCases(w *emit.Writer, g *gen, f *opfix.Fixture, n int) {
 			}
 		default:
 			doc = g.doc(vk.sc)
-			if doc.Kind == kObj && r.Chance(2, 3) { // make it look like a live token of this provider
+			if doc.Kind == kObj && (vk.name == "VRequestObject" || vk.name == "VJWTAssertion") && r.Chance(1, 2) {
+				// claims a private_key_jwt client would send: consistent request object / assertion of client pkjwt
+				doc.M = append([]kv{{"iss", jstr("pkjwt")}, {"sub", jstr("pkjwt")}, {"client_id", jstr("pkjwt")}, {"aud", jarr(jstr(opfix.Issuer))},
+					{"exp", jint(g.now + 300)}, {"iat", jint(g.now)}}, doc.M...)
+			} else if doc.Kind == kObj && r.Chance(2, 3) { // make it look like a live token of this provider
 				doc.M = append([]kv{{"iss", jstr(opfix.Issuer)}, {"sub", jstr("alice")}, {"aud", jarr(jstr("web"), jstr(opfix.Issuer))},
 					{"exp", jint(g.now + 600)}, {"iat", jint(g.now)}}, doc.M...)
 			}
@@ -316,7 +326,11 @@ func verifyCases(w *emit.Writer, g *gen, f *opfix.Fixture, n int) {
 		}
 		var perr error
 		pp := drv.Catch(func() { perr = vk.parse(tok) })
-		pv := drv.Catch(func() { vk.call(f, tok) })
+		pv := drv.Catch(func() {
+			if err := vk.call(f, tok); err != nil {
+				_ = err.Error() // what every caller does with it: a non-nil error around a nil pointer panics here
+			}
+		})
 		obs := "VPast"
 		switch {
 		case pp != "" || pv != "":
@@ -445,18 +459,19 @@ func main() {
 	exitCases(w, g, total*4/100)
 	codeCases(w, g, total*3/100)
 	hintCases(w, g, total*3/100)
+	reqObjCases(w, g, total*5/100)
 	bearerCases(w, g, total*4/100)
 	authCases(w, g, total*10/100)
 	forwardedCases(w, g, total*4/100)
 	routeCases(w, g, total*26/100)
 	clientCases(w, g, total*15/100)
-	chainCases(w, g, total*4/100)
+	chainCases(w, g, total*8/100)
 	ambiguous := deviceCases(w, g, max(12, total*15/1000))
 	opaqueCases(w, g, total*3/100)
 	userCodeCases(w, g, max(8, total/100))
 
 	err = w.Close(emit.Meta{Property: "C09", Tier: cfg.Tier, Seed: cfg.Seed,
-		Rule:  "seeded structured fuzz, no coverage guidance. decode: JSON ASTs (well-typed members + wrong-typed / null / huge / nested / duplicate members, invalid UTF-8) serialised by the harness and fed to json.Unmarshal of each library type; verify: JWTs (provider-signed, foreign, none, garbage) around those payloads plus null / scalar / array / truncated payloads, wrong segment counts, bad base64, on the six verifier entry points; handler: request shapes (entry x endpoint/grant x form ok x Basic header kind x main parameter x client_id x first storage call fails) on Provider router, LegacyServer router and directly called grant handlers; hint: id_token_hint tokens (issuer right / wrong, signature right / wrong, exp and iat absent / past / future) at end_session and authorize on both routers; code: redemption of a live code (public / confidential client x challenge stored or not x verifier none / right / wrong) on both routers; exit: valid authenticated revocation / introspection / userinfo requests whose k-th storage call fails (error or deadline); route: flow-first requests (a fresh code flow per case with random optional parts - challenge none / S256 / plain, nonce, state, scopes, max_age, zero auth time, empty amr / audience, not logged in -; live tokens / device codes approved, denied, pending) with mutations on every route x method x header x body of both routers, one third of them with an injected storage fault (k-th call or every call of one method, error or deadline); device: device authorization answer (interval absent / null / 0 / negative / 1 / 2 / huge / wrongly typed, expires_in likewise) then client.PollDeviceAccessTokenEndpoint against token answers (success, pending, slow_down, refusals, garbage) under a 300 ms deadline and a 10 s hang guard; opaque: crypto.DecryptAES on strings of n alphabet characters, m CR/LF and optionally a foreign character around the 16-byte / 22-character thresholds; client: provider answers (status x body AST / truncated) through a stub RoundTripper into the client helpers; bearer: GET /userinfo with an Authorization header built around a live token (non-UTF-8 bytes, runes whose case mapping changes the length, other scheme spellings, repeated / prefix-only schemes, junk after the token) on both routers, the token oracle asked through the form parameter; auth: otherwise valid requests with live artefacts on the eight endpoints that accept client credentials x router x private_key_jwt on / off x assertion type (jwt-bearer / absent / other) x assertion (absent / valid / failing before / at the key lookup) x Basic - the failing-assertion block enumerated first -, one third free-form (several transports at once from their own catalogues, any owner of the artefacts, a parameter missing; also endpoints without client authentication); route fuzz additionally with hostile values in every header the library reads, on three providers (static issuer, issuer from forwarding headers, private_key_jwt off); forwarded: 1-2 lines of the forwarding headers (host values bare and quoted) on the provider whose issuer comes from them; chain: composed relying-party / token-exchange / JWT-profile helpers and the callback handler (Cookie x query x token answer x userinfo answer x response headers such as Location) behind a path-routing stub. Non-trivial = model path class != 0 (not: null document, wrong segment count, missing grant_type); distinct = distinct input term.",
+		Rule:  "seeded structured fuzz, no coverage guidance. decode: JSON ASTs (well-typed members + wrong-typed / null / huge / nested / duplicate members, invalid UTF-8) serialised by the harness and fed to json.Unmarshal of each library type; verify: JWTs (provider-signed, foreign, none, garbage) around those payloads plus null / scalar / array / truncated payloads, wrong segment counts, bad base64, on the six verifier entry points; handler: request shapes (entry x endpoint/grant x form ok x Basic header kind x main parameter x client_id x first storage call fails) on Provider router, LegacyServer router and directly called grant handlers; hint: id_token_hint tokens (issuer right / wrong, signature right / wrong, exp and iat absent / past / future) at end_session and authorize on both routers; code: redemption of a live code (public / confidential client x challenge stored or not x verifier none / right / wrong) on both routers; exit: valid authenticated revocation / introspection / userinfo requests whose k-th storage call fails (error or deadline); route: flow-first requests (a fresh code flow per case with random optional parts - challenge none / S256 / plain, nonce, state, scopes, max_age, zero auth time, empty amr / audience, not logged in -; live tokens / device codes approved, denied, pending) with mutations on every route x method x header x body of both routers, one third of them with an injected storage fault (k-th call or every call of one method, error or deadline); device: device authorization answer (interval absent / null / 0 / negative / 1 / 2 / huge / wrongly typed, expires_in likewise) then client.PollDeviceAccessTokenEndpoint against token answers (success, pending, slow_down, refusals, garbage) under a 300 ms deadline and a 10 s hang guard; opaque: crypto.DecryptAES on strings of n alphabet characters, m CR/LF and optionally a foreign character around the 16-byte / 22-character thresholds; client: provider answers (status x body AST / truncated) through a stub RoundTripper into the client helpers; bearer: GET /userinfo with an Authorization header built around a live token (non-UTF-8 bytes, runes whose case mapping changes the length, other scheme spellings, repeated / prefix-only schemes, junk after the token) on both routers, the token oracle asked through the form parameter; auth: otherwise valid requests with live artefacts on the eight endpoints that accept client credentials x router x private_key_jwt on / off x assertion type (jwt-bearer / absent / other) x assertion (absent / valid / failing before / at the key lookup) x Basic - the failing-assertion block enumerated first -, one third free-form (several transports at once from their own catalogues, any owner of the artefacts, a parameter missing; also endpoints without client authentication); route fuzz additionally with hostile values in every header the library reads, on three providers (static issuer, issuer from forwarding headers, private_key_jwt off); reqobj: valid authorization requests (GET / POST, both routers, RequestObjectSupported on / off) carrying a request object whose claims are consistent or inconsistent one check at a time, signed with the registered key / a foreign key / an unknown kid / garbage / alg none, payload also non-objects with white space around them (consistent-claims block first); chain additionally serves half of the answers as raw bytes from a TCP listener (hostile status lines, framing, header blocks; every helper x {099, 000, 100, 199, 204, 304, 600, 999} first); forwarded: 1-2 lines of the forwarding headers (host values bare and quoted) on the provider whose issuer comes from them; chain: composed relying-party / token-exchange / JWT-profile helpers and the callback handler (Cookie x query x token answer x userinfo answer x response headers such as Location) behind a path-routing stub. Non-trivial = model path class != 0 (not: null document, wrong segment count, missing grant_type); distinct = distinct input term.",
 		Extra: map[string]any{"router_fixture": "opfix.NewStd, all capabilities", "clock_ambiguous": ambiguous},
 	})
 	if err != nil {
